@@ -147,6 +147,11 @@ func (f *Func) callGraph(args *argBuilder) (
 				continue
 			}
 
+			// Named values only ever match values of the same name.
+			if v2.Name != v.Name {
+				continue
+			}
+
 			g.AddEdgeWeighted(v, v2, weightTyped)
 		}
 	}
